@@ -191,7 +191,7 @@ SAFETY_CLASSES = ('pointer_dereference', 'array_bounds', 'overflow', 'division-b
 
 def cbmc_cmd(u, gb):
     cmd = ['cbmc', '--bounds-check', '--pointer-check', '--signed-overflow-check', '--div-by-zero-check',
-           '--undefined-shift-check', '--json-ui']
+           '--undefined-shift-check', '--drop-unused-functions', '--json-ui']
     if u.get('solver', 'cadical') == 'cadical':
         cmd += ['--sat-solver', 'cadical']
     if u.get('kind') in ('B', 'W') or u.get('unwind'):
